@@ -20,9 +20,12 @@ paths     : one process opens many files; about half of them (correspondence and
             `<key>:sequence:<class>` with the whole sequence of (path slot, file text) steps; `--replay` re-runs it.
 """
 import atexit
+import copy
 import json
 import math
 import os
+import pickle
+import random
 import re
 import shutil
 import subprocess
@@ -348,7 +351,9 @@ def gen_ospec(rng, fmt=None, cols=None, nev=None):
         events.append(dict(label=lab, parts=parts, footer=foot, impact=b))
     h3 = rng.choice(["# SMASH-3.1", "# SMASH-2.2", "# SMASH-3.0-12-gabcdef", "# SMASH-%d.%d" % (rng.randint(1, 3), rng.randint(0, 9)),
                      "# SMASH-3.1-%d-g%06x" % (rng.randint(1, 99), rng.randrange(16 ** 6))])
-    return OSpec(fmt, cols, events, h2=h2, h3=h3, nl=rng.random() < 0.85)
+    sp = OSpec(fmt, cols, events, h2=h2, h3=h3, nl=rng.random() < 0.85)
+    sp.h2, sp.h3 = free_text(rng, sp.h2), free_text(rng, sp.h3)
+    return sp
 
 
 def gen_momentum(rng):
@@ -384,7 +389,16 @@ def gen_jspec(rng, partons=None, nev=None):
     h1 = rng.choice(["#\tJETSCAPE_FINAL_STATE\tv2\t|\tN\tpid\tstatus\tE\tPx\tPy\tPz", "#\tJETSCAPE_FINAL_STATE\tv2\t|\tN\tpid\tstatus\tE\tPx\tPy\tPz",
                      "# JETSCAPE_FINAL_STATE v2 | N pid status E Px Py Pz", "#\tJETSCAPE_FINAL_STATE\tv%d\t|\tN\tpid\tstatus\tE\tPx\tPy\tPz" % rng.randint(1, 9),
                      "#\tJETSCAPE_FINAL_STATE\tv2\t|\tN\tpid\tstatus\tE\tPx\tPy\tPz\tEta\tPhi"])
-    return JSpec(partons, events, tsep.join(["#", "sigmaGen", sigma[0], "sigmaErr", sigma[1]]), sigma, h1=h1, nl=rng.random() < 0.6)
+    return JSpec(partons, events, tsep.join(["#", "sigmaGen", sigma[0], "sigmaErr", sigma[1]]), sigma, h1=free_text(rng, h1), nl=rng.random() < 0.6)
+
+
+def free_text(rng, line):
+    """free-text comment lines (units, version, JETSCAPE column header) may carry non-ASCII characters and trailing blanks"""
+    if rng.random() < 0.1:
+        line += " " + rng.choice(NONASCII)
+    if rng.random() < 0.08:
+        line += rng.choice([" ", "  ", "\t", " \t "])
+    return line
 
 
 def gen_sigma(rng):
@@ -584,26 +598,105 @@ def is_fresh(slot):
     return slot.startswith("f")
 
 
-def open_real(kind, text, slot=None):
+class StrSub(str):
+    """a path given as an instance of a subclass of str"""
+
+
+COPIERS = {"copy": copy.copy, "deepcopy": copy.deepcopy, "pickle": lambda o: pickle.loads(pickle.dumps(o))}
+NONASCII = ["(Universität Frankfurt)", "µ=0 β≈1 — ℏc", "données à 200 GeV", "衝突 ☢", "naïve café"]
+
+
+def gen_dev(rng, p=1.0):
+    """round-trip / environment / text devices under which a file is opened (all admissible by the documentation: the object
+    is a plain Python object, the path is a str, the file is a text file):
+      eol=crlf        the same text with Windows line endings on disk
+      copy=…          the loaded object is replaced by copy.copy / copy.deepcopy / a pickle round trip before it is observed
+      env=[…]         chdir: opened by its bare relative name from inside its directory; nperr: np.seterr(all='warn');
+                      rng: `random` / `np.random` global state advanced; print: non-default numpy print options
+      path=strsub|npstr   the path is a str subclass / np.str_
+    Everything observable is judged against the same reference as without the device."""
+    d = {}
+    if rng.random() < 0.12 * p:
+        d["eol"] = "crlf"
+    if rng.random() < 0.15 * p:
+        d["copy"] = rng.choice(sorted(COPIERS))
+    if rng.random() < 0.15 * p:
+        d["env"] = sorted(rng.sample(["chdir", "nperr", "rng", "print"], rng.randint(1, 3)))
+    if rng.random() < 0.06 * p:
+        d["path"] = rng.choice(["strsub", "npstr"])
+    return d
+
+
+def dev_tag(dev):
+    return ",".join(f"{k}={'+'.join(v) if isinstance(v, list) else v}" for k, v in sorted((dev or {}).items()))
+
+
+def env_snapshot():
+    po = np.get_printoptions()
+    return dict(cwd=os.getcwd(), geterr=dict(np.geterr()), random=random.getstate(),
+                np_random=tuple(x.tolist() if isinstance(x, np.ndarray) else x for x in np.random.get_state()),
+                printoptions={k: po[k] for k in sorted(po) if k != "formatter"})
+
+
+def open_real(kind, text, slot=None, dev=None):
+    """write `text` (in the form the devices ask for) to the path of `slot` and open it with the real class.
+    Returns (object, exception); `open_real.env_changed` lists the pieces of global state the call did not leave as found."""
     from sparkx.Oscar import Oscar
     from sparkx.Jetscape import Jetscape
+    dev = dev or {}
     slot = slot or PATHS.fresh(kind)
     path = PATHS.path(slot)
-    HISTORY.append(dict(op="open", slot=slot, kind=kind, text=text))
+    step = dict(op="open", slot=slot, kind=kind, text=text)
+    if dev:
+        step["dev"] = dev
+    HISTORY.append(step)
+    open_real.env_changed = []
+    env = dev.get("env", [])
+    saved = dict(cwd=os.getcwd(), err=np.geterr(), rnd=random.getstate(), nrnd=np.random.get_state(), po=np.get_printoptions())
     try:
-        with open(path, "w", newline="") as f:
-            f.write(text)
-        with np.errstate(all="ignore"):
+        with open(path, "w", newline="", encoding="utf-8") as f:
+            f.write(text.replace("\n", "\r\n") if dev.get("eol") == "crlf" else text)
+        arg = path
+        if "chdir" in env:
+            os.chdir(PATHS.root())
+            arg = slot
+        if "rng" in env:
+            random.seed(20260930)
+            [random.random() for _ in range(17)]
+            np.random.seed(4711)
+            np.random.rand(5)
+        if "print" in env:
+            np.set_printoptions(precision=2, suppress=True, threshold=5, linewidth=40)
+        arg = StrSub(arg) if dev.get("path") == "strsub" else np.str_(arg) if dev.get("path") == "npstr" else arg
+        np.seterr(all="warn" if "nperr" in env else "ignore")
+        before = env_snapshot()
+        with warnings.catch_warnings():
+            warnings.simplefilter("ignore")
             if kind == "oscar":
-                return Oscar(path), None
-            if kind == "jetscapeP":
-                return Jetscape(path, particletype="parton"), None
-            return Jetscape(path), None
+                obj = Oscar(arg)
+            elif kind == "jetscapeP":
+                obj = Jetscape(arg, particletype="parton")
+            else:
+                obj = Jetscape(arg)
+        after = env_snapshot()
+        open_real.env_changed = [k for k in before if before[k] != after[k]]
+        if dev.get("copy"):
+            obj = COPIERS[dev["copy"]](obj)
+        return obj, None
     except Exception as e:
         return None, e
     finally:
+        os.chdir(saved["cwd"])
+        np.seterr(**saved["err"])
+        random.setstate(saved["rnd"])
+        np.random.set_state(saved["nrnd"])
+        np.set_printoptions(**{k: v for k, v in saved["po"].items() if k != "formatter"})
+        np.seterr(all="ignore")
         if is_fresh(slot) and os.path.exists(path):
             os.unlink(path)
+
+
+open_real.env_changed = []
 
 
 def counts_repr(c):
@@ -693,11 +786,12 @@ def plist_real(kind, obj, P):
 
 
 # =================================================================================================== the property on the real code
-def check_file(kind, text, P=None, slot=None):
+def check_file(kind, text, P=None, slot=None, dev=None):
     """Returns a list of (key, what) — failures of the PROPERTY on the real code for this well-formed file
-    (written to the path of `slot`; a path not used before when `slot` is None)."""
+    (written to the path of `slot`; a path not used before when `slot` is None; opened under the devices `dev`)."""
     P = P or parse(kind, text)
-    obj, exc = open_real(kind, text, slot)
+    obj, exc = open_real(kind, text, slot, dev)
+    env_changed = list(open_real.env_changed)
     tag = kind if kind != "oscar" else P["fmt"]
     # header lengths the format sniffing used to confuse with Oscar2013 / Oscar2013Extended get their own key
     otag = tag + (f"/ncols={len(P['cols'])}" if kind == "oscar" and P["fmt"] == "ascii" and len(P["cols"]) in (13, 21) else "")
@@ -711,6 +805,8 @@ def check_file(kind, text, P=None, slot=None):
                         extra = "/pdg-without-charge"
         return [(f"open-raises/{otag}/{type(exc).__name__}{extra}", f"opening a well-formed {otag} file raised {type(exc).__name__}: {exc}")]
     out = []
+    for what in env_changed:
+        out.append((f"environment-changed/{what}", f"opening a file left the global {what} changed"))
     evs = obj.particle_objects_list()
     n = len(P["events"])
     if obj.num_events() != n:
@@ -768,11 +864,11 @@ def check_file(kind, text, P=None, slot=None):
     return uniq
 
 
-def shrink_spec(spec, key):
+def shrink_spec(spec, key, dev=None):
     """delta-debugging on events / particles while the same key keeps failing (blocks first, then single items)"""
     def fails(s):
         try:
-            return any(k == key for k, _ in check_file(s.kind, s.text()))
+            return any(k == key for k, _ in check_file(s.kind, s.text(), dev=dev))
         except NotWellFormed:
             return False
     cur = spec
@@ -877,7 +973,7 @@ def fields(ans):
     return parts[0], {p.split("=", 1)[0]: p.split("=", 1)[1] for p in parts[1:] if "=" in p}
 
 
-def corr_spec(ctx, spec, origin, text_real=None, slot=None):
+def corr_spec(ctx, spec, origin, text_real=None, slot=None, dev=None):
     """one file: returns the driver line and a closure comparing the answer"""
     text = spec.text() if text_real is None else text_real
     kind = spec.kind
@@ -889,7 +985,7 @@ def corr_spec(ctx, spec, origin, text_real=None, slot=None):
 
     def compare(ans):
         head, F = fields(ans)
-        case = dict(origin=origin, spec=spec.to_json())
+        case = dict(origin=origin, spec=spec.to_json(), dev=dev or {})
         if head != "ok":
             ctx.brk("correspondence-broken", f"{origin}: driver answered {ans[:80]!r}", case=case)
             return
@@ -908,7 +1004,11 @@ def corr_spec(ctx, spec, origin, text_real=None, slot=None):
             ctx.brk("proof-broken", f"{origin}: theorem instance evaluates to false: read = {F['read'][:200]} abstract = {F['abs'][:200]}", case=case)
             return
         P = parse(kind, text)
-        obj, exc = open_real(kind, text, slot)
+        obj, exc = open_real(kind, text, slot, dev)
+        for d_ in (dev or {}):
+            ctx.count(f"device/{d_}")
+        if open_real.env_changed:
+            ctx.brk("correspondence-broken", f"{origin}: opening the file left global state changed: {open_real.env_changed}", case=case)
         real = classify(exc) if exc is not None else canon_real(kind, obj, P)
         nontriv = len(P["events"]) >= 2 and any(not e["rows"] for e in P["events"]) and any(e["rows"] for e in P["events"])
         ctx.case((origin.split("#")[0], text), nontriv or origin.startswith("ascii") or origin.startswith("gen"),
@@ -1145,14 +1245,14 @@ def correspond(ctx):
     for case in corpus():
         if case.get("spec"):
             jobs.append(corr_spec(ctx, spec_from_json(case["spec"]), "corpus#" + case.get("name", "")))
-    nfiles = ctx.n(800, 5000)
+    nfiles = ctx.n(600, 5000)
     for i in range(nfiles):
         spec = gen_jspec(rng) if rng.random() < 0.4 else gen_ospec(rng)
         tag = spec.kind if spec.kind != "oscar" else spec.fmt
         ctx.count(f"file/{tag}/events={len(spec.events)}")
         if spec.kind == "oscar" and spec.fmt == "ascii":
             ctx.count(f"ascii/ncols={len(spec.cols)}")
-        jobs.append(corr_spec(ctx, spec, f"{tag}#{i}", slot=PATHS.pick(rng, spec.kind)))
+        jobs.append(corr_spec(ctx, spec, f"{tag}#{i}", slot=PATHS.pick(rng, spec.kind), dev=gen_dev(rng)))
     for spec in big_files(ctx, rng):
         ctx.count(f"file/big/{spec.kind}/events={len(spec.events)}")
         jobs.append(corr_spec(ctx, spec, f"big#{len(spec.events)}", slot=PATHS.pick(rng, spec.kind)))
@@ -1242,7 +1342,7 @@ def run_steps(steps):
     for st in steps:
         if st["op"] == "open":
             try:
-                last = check_file(st["kind"], st["text"], slot=st["slot"])
+                last = check_file(st["kind"], st["text"], slot=st["slot"], dev=st.get("dev"))
             except NotWellFormed:
                 last = []
         elif st["op"] == "particle":
@@ -1361,7 +1461,7 @@ def describe_sequence(steps):
     d = []
     for st in steps:
         if st["op"] == "open":
-            d.append(f"open {st['kind']} file on path slot {st['slot']} ({len(st['text'])} bytes, first line {st['text'].splitlines()[0][:60]!r}, "
+            d.append(f"open {st['kind']} file{' [' + dev_tag(st.get('dev')) + ']' if st.get('dev') else ''} on path slot {st['slot']} ({len(st['text'])} bytes, first line {st['text'].splitlines()[0][:60]!r}, "
                      f"last line {st['text'].splitlines()[-1][:60]!r})")
         elif st["op"] == "particle":
             d.append(f"Particle({st['fmt']!r}, {len(st['toks'])} tokens, attrs={st['attrs']})")
@@ -1377,13 +1477,18 @@ def search(ctx, budget_s):
     n = 0
     found = set()
     nseq = [0]
+    ndev = {}
 
     def report(spec, fails, origin, hist_len):
         """`hist_len` = length of HISTORY right after the failing open (its last entry is that open)"""
         for key, what in fails:
-            if key in found or len(found) >= 8 or any(f.startswith(key + ":sequence:") for f in found):
-                continue
             step = dict(HISTORY[hist_len - 1])
+            if len(found) >= 10 or any(f.startswith(key + ":sequence:") for f in found):
+                continue
+            if key in found and (not step.get("dev") or ndev.get(key, 0) >= 3):
+                continue
+            if step.get("dev"):
+                ndev[key] = ndev.get(key, 0) + 1
             alone = fresh_process_fails([dict(step, slot="f1" + os.path.splitext(step["slot"])[1])])
             if alone is not None and not any(k == key for k, _ in alone):
                 # the file is read correctly by a new process: the failure needs what happened before in this one
@@ -1406,22 +1511,45 @@ def search(ctx, budget_s):
                               dict(sequence=seq, steps=describe_sequence(seq), text=seq[-1]["text"], origin=origin,
                                    how_to_replay="./check C01 --replay <this file>  (runs the whole sequence in a new process)"))
                 continue
-            found.add(key)
+            # which of the devices does the failure need?  (none: the plain file fails as well)
+            mdev = dict(step.get("dev") or {})
+            for d_ in sorted(mdev):
+                trial = {k: v for k, v in mdev.items() if k != d_}
+                try:
+                    if any(k == key for k, _ in check_file(spec.kind, spec.text(), dev=trial)):
+                        mdev = trial
+                except Exception:
+                    pass
+            if isinstance(mdev.get("env"), list) and len(mdev["env"]) > 1:
+                for e_ in list(mdev["env"]):
+                    trial = dict(mdev, env=[x for x in mdev["env"] if x != e_])
+                    if any(k == key for k, _ in check_file(spec.kind, spec.text(), dev=trial)):
+                        mdev = trial
+            fkey = key + ("/with:" + dev_tag(mdev) if mdev else "")
+            if fkey in found:
+                continue
+            found.add(fkey)
+            if not mdev:
+                ndev[key] = 99
             small = spec
             try:
-                small = shrink_spec(spec, key)
-                w2 = [w for k, w in check_file(small.kind, small.text()) if k == key]
+                small = shrink_spec(spec, key, mdev)
+                w2 = [w for k, w in check_file(small.kind, small.text(), dev=mdev) if k == key]
                 what = w2[0] if w2 else what
             except Exception:
                 pass
-            ctx.violation(key, what, dict(input=small.to_json(), text=small.text(), origin=origin,
-                                          how_to_replay="./check C01 --replay <this file>"))
+            if mdev:
+                what += f" — when opened with {dev_tag(mdev)}; the same file opened plainly is read correctly"
+            ctx.violation(fkey, what, dict(input=small.to_json(), dev=mdev, text=small.text(), origin=origin,
+                                           how_to_replay="./check C01 --replay <this file>"))
 
-    def run(spec, origin, slot=None):
-        fails = check_file(spec.kind, spec.text(), slot=slot)
+    def run(spec, origin, slot=None, dev=None):
+        fails = check_file(spec.kind, spec.text(), slot=slot, dev=dev)
         hl = len(HISTORY)
-        ctx.case(("oracle", spec.text(), slot is not None), True)
+        ctx.case(("oracle", spec.text(), slot is not None, dev_tag(dev)), True)
         ctx.count("oracle-path/" + ("re-used" if slot is not None else "fresh"))
+        for d_ in (dev or {}):
+            ctx.count(f"oracle-device/{d_}")
         if fails:
             report(spec, fails, origin, hl)
 
@@ -1451,7 +1579,7 @@ def search(ctx, budget_s):
             spec, origin = (gen_jspec(rng) if rng.random() < 0.4 else gen_ospec(rng)), "random"
             slot = PATHS.pick(rng, spec.kind)
         n += 1
-        run(spec, origin, slot)
+        run(spec, origin, slot, gen_dev(rng) if origin != "targeted" or rng.random() < 0.3 else None)
     ctx.cov["oracle_cases"] = n
     ctx.cov["history_steps"] = len(HISTORY)
     ctx.count("oracle", n)
@@ -1493,7 +1621,12 @@ def replay(ctx, path):
         print(f"[C01] replay file names a broken obligation, not an input: {d.get('broken')}")
         return 1
     spec = spec_from_json(inp)
-    fails = check_file(spec.kind, spec.text())
+    dev = d.get("dev") or {}
+    fails = check_file(spec.kind, spec.text(), dev=dev)
+    base = (d.get("key") or "").split("/with:")[0]
+    if dev:
+        print("[C01] opened with:", dev_tag(dev))
+        fails = [(k, w) for k, w in fails if not base or k == base] or fails
     ans = common.run_driver("C01", [spec.enc()])[0]
     print("[C01] model:", " | ".join(p for p in ans.split("\t") if not p.startswith("text="))[:600])
     if fails:
